@@ -71,19 +71,21 @@ OutViolation(i, o) ==
     ELSE IF o.rxt # RxTimeout(i.speed) THEN "rx_timeout"
     ELSE "ok"
 
-Init == t = 0 /\ since = 0 /\ in = [start |-> FALSE, speed |-> FULL]
+Init == t = 0 /\ since = 0 /\ in = [start |-> FALSE, speed |-> FULL, rst |-> FALSE]
 
+\* i.rst: the reset of the timer's clock domain is asserted in this cycle; like a start it makes the next cycle
+\* the time origin ("measured from the most recent timer start (or reset)").
 Step(i) == /\ in' = i
-           /\ t' = IF i.start THEN 0 ELSE IF t < TSat THEN t + 1 ELSE t
-           /\ since' = IF i.start THEN 0 ELSE since + 1
+           /\ t' = IF i.start \/ i.rst THEN 0 ELSE IF t < TSat THEN t + 1 ELSE t
+           /\ since' = IF i.start \/ i.rst THEN 0 ELSE since + 1
 
 \* The same timer seen through USBTokenDetector: the timer is started by an accepted token, so its origin
 \* is the cycle in which new_token is high; ready_for_response is the timer's tx_allowed.
 TokCount(nt) == IF nt THEN 0 ELSE t
 TokViolation(r) == IF Constrained(r.speed) /\ r.rfr # (TokCount(r.nt) = MinOf(r.speed)) THEN "ready_for_response" ELSE "ok"
-TokStep(r) == /\ in' = [start |-> r.nt, speed |-> r.speed]
-              /\ t' = IF TokCount(r.nt) < TSat THEN TokCount(r.nt) + 1 ELSE TokCount(r.nt)
-              /\ since' = IF r.nt THEN 1 ELSE since + 1
+TokStep(r) == /\ in' = [start |-> r.nt, speed |-> r.speed, rst |-> r.rst]
+              /\ t' = IF r.rst THEN 0 ELSE IF TokCount(r.nt) < TSat THEN TokCount(r.nt) + 1 ELSE TokCount(r.nt)
+              /\ since' = IF r.rst THEN 0 ELSE IF r.nt THEN 1 ELSE since + 1
 
 -----------------------------------------------------------------------------
 (* Prop *)
@@ -98,5 +100,5 @@ ExactlyAtDocumentedTimes ==
         /\ (RxTimeout(s) <=> since = RxToOf(s))
 
 \* a start strobe restarts the measurement
-StartRestarts == [][in'.start => t' = 0]_vars
+StartRestarts == [][(in'.start \/ in'.rst) => t' = 0]_vars
 =============================================================================
